@@ -8,9 +8,15 @@ import (
 	"encoding/json"
 	"fmt"
 	"math/big"
+	"net/http"
 	"net/http/httptest"
 	"reflect"
 	"strconv"
+	"strings"
+	"sync"
+	"time"
+
+	"github.com/gorilla/websocket"
 
 	apifu "github.com/ccbrown/api-fu"
 	"github.com/ccbrown/api-fu/graphql"
@@ -19,6 +25,10 @@ import (
 )
 
 type apiWorld struct {
+	mu       sync.Mutex
+	srv      *httptest.Server
+	ws       *websocket.Conn
+	wsID     int
 	api      *apifu.API
 	called   bool
 	cost     int
@@ -27,7 +37,15 @@ type apiWorld struct {
 	resolved int  // `node` resolver invocations
 }
 
-func (w *apiWorld) close() {}
+func (w *apiWorld) close() {
+	if w.ws != nil {
+		w.ws.Close()
+	}
+	if w.srv != nil {
+		w.api.CloseHijackedConnections()
+		w.srv.Close()
+	}
+}
 
 func (h *harness) apiFor(d DefaultCost) *apiWorld {
 	if w, ok := h.apis[d]; ok {
@@ -60,8 +78,10 @@ func (h *harness) apiFor(d DefaultCost) *apiWorld {
 		},
 	}))
 	cfg.Execute = func(r *graphql.Request, info *apifu.RequestInfo) *graphql.Response {
+		w.mu.Lock()
 		w.called = true
 		w.cost = info.Cost
+		w.mu.Unlock()
 		if w.execute {
 			return graphql.Execute(r)
 		}
@@ -119,6 +139,102 @@ func (w *apiWorld) serve(c Case) (status int, body string, panicked string) {
 		w.api.ServeGraphQL(rec, req)
 	}()
 	return rec.Code, rec.Body.String(), panicked
+}
+
+// serveWS sends one `start` over a graphql-ws connection (graphqlws.go:52-73) and waits for its `complete`.
+func (w *apiWorld) serveWS(c Case) (errText string) {
+	w.mu.Lock()
+	w.called, w.cost, w.resolved = false, 0, 0
+	w.mu.Unlock()
+	if w.srv == nil {
+		w.srv = httptest.NewServer(http.HandlerFunc(w.api.ServeGraphQLWS))
+	}
+	if w.ws == nil {
+		d := websocket.Dialer{Subprotocols: []string{"graphql-ws"}, HandshakeTimeout: 5 * time.Second}
+		conn, _, err := d.Dial("ws"+strings.TrimPrefix(w.srv.URL, "http"), nil)
+		if err != nil {
+			return "dial: " + err.Error()
+		}
+		w.ws = conn
+		if err := conn.WriteJSON(map[string]interface{}{"type": "connection_init"}); err != nil {
+			return "init: " + err.Error()
+		}
+	}
+	w.wsID++
+	id := strconv.Itoa(w.wsID)
+	payload := map[string]interface{}{"query": c.Query}
+	if c.OpName != "" {
+		payload["operationName"] = c.OpName
+	}
+	if len(c.Vars) > 0 {
+		payload["variables"] = jsonVars(c.Vars)
+	}
+	if err := w.ws.WriteJSON(map[string]interface{}{"type": "start", "id": id, "payload": payload}); err != nil {
+		w.ws = nil
+		return "start: " + err.Error()
+	}
+	w.ws.SetReadDeadline(time.Now().Add(10 * time.Second))
+	for {
+		var msg struct {
+			Type string `json:"type"`
+			Id   string `json:"id"`
+		}
+		if err := w.ws.ReadJSON(&msg); err != nil {
+			w.ws.Close()
+			w.ws = nil
+			return "read: " + err.Error()
+		}
+		if msg.Type == "complete" && msg.Id == id {
+			return ""
+		}
+	}
+}
+
+// wsOne: the same request over graphql-ws reaches Config.Execute with the same RequestInfo.Cost.
+func (h *harness) wsOne(c Case, verbose bool) *failure {
+	w := h.apiFor(c.Default)
+	w.execute = false
+	if e := w.serveWS(c); e != "" {
+		return &failure{"correspondence", "graphql-ws exchange failed: " + e}
+	}
+	w.mu.Lock()
+	wsCalled, wsCost := w.called, w.cost
+	w.mu.Unlock()
+	if verbose {
+		fmt.Printf("graphql-ws: Execute called=%v RequestInfo.Cost=%d\n", wsCalled, wsCost)
+	}
+	cc := c
+	cc.Kind = "execute"
+	if f := h.executeOne(cc, verbose); f != nil {
+		return f
+	}
+	if wsCalled != w.called || (wsCalled && wsCost != w.cost) {
+		return &failure{"property", fmt.Sprintf("over graphql-ws Execute called=%v with RequestInfo.Cost=%d, over HTTP called=%v with cost %d (the latter equals the reference)", wsCalled, wsCost, w.called, w.cost)}
+	}
+	return nil
+}
+
+func (h *harness) wsPath(n int) {
+	for i := 0; i < n; i++ {
+		r := h.run.Rand.Fork()
+		o := genOpts{MaxDepth: r.Range(2, 4), Budget: r.Range(3, 15), NoMutation: true}
+		gd, vars := genDoc(r, o)
+		c := Case{Kind: "ws", Query: gd.Render(), Vars: vars, Default: hx.Pick(r, defaults[:9]), Max: -1}
+		names := []string{""}
+		for _, op := range gd.Ops {
+			if op.Name != "" {
+				names = append(names, op.Name)
+			}
+		}
+		c.OpName = hx.Pick(r, names)
+		f := h.wsOne(c, false)
+		h.run.Case("ws|"+c.Query+"|"+c.OpName+fmt.Sprint(c.Vars, c.Default), true)
+		h.run.Count("ws-path")
+		h.run.Oblige("RequestInfo.Cost over graphql-ws (graphqlws.go) = over HTTP = reference", "correspondence", 1, f == nil, fmtFail(f))
+		if f != nil {
+			h.report(f, c)
+		}
+	}
 }
 
 // executeOne: the cost handed to Config.Execute equals the model's `actual` without a limit, and
